@@ -46,6 +46,10 @@ CLAIMED = {
   "classification table over every balance-changing call site with mechanical shape checks per class (same-SSA-value debit/credit pairing); guarded-by comparison with operand roles (fresh GetBalance of the same address vs the debited amount); ordering rule for the funds pre-check; value-origin scan for floating point",
   "Every production call site of AddBalance/SubBalance/SetBalance/AddFT/SubFT/SetFT/Transfer outside storage/account (45 sites in 20 functions) is classified (move, lock, scheduled credit, genesis, touch, selfdestruct, state override) and its class shape re-checked; every debit is guarded by a fresh balance comparison of the same address and amount (or is the EVM transfer behind CanTransfer in every frame entry); bottom-level subtraction is guarded; no amount derives from a float except the reviewed stake conversions. The sums themselves are not decided.",
   "Trusted: balances change only through the listed methods (and EVM SSTORE into the bound token contract). Recorded defects F7 (10 RPG burn in minerNodeExecutor) and F8 (unguarded gas-fee debit in contractExecutor.Execute) are printed as KNOWN-FINDING."),
+ "C07": ("3/C07",
+  "must-pass-through on accept returns (nil-edge collection over the dominating conditions); operand-role checks on the verification calls; encoder/comparator field coverage; hash-coverage of fields read in the execution cone; dominance of VerifyTransaction over every admission call site with one-level wrapper inlining",
+  "The admission pipeline is complete on every path: VerifyTransaction accepts only via verifyETHTx or after chain-id, hash and signature checks; the signature check needs recovery, secp256k1 verification and source==address; the wrapped-Ethereum path recovers the sender under this chain's EIP-155 id and compares every converted field; every Transaction field read by execution is covered by GenHash or a reviewed exclusion; all admission call sites (network peer path and three gateway paths) are gated. ECDSA soundness and bit-flip rejection are not decided.",
+  "Trusted: libsecp256k1 (cgo) and the upstream EIP-155 signer; go/ssa."),
 }
 
 NOT_YET = {}
